@@ -4,6 +4,7 @@ CONSTANTS
   Cancellers = {"k1"}
   Periodic = TRUE
   DeleteByName = FALSE
+  ClaimIgnoresCancel = FALSE
   DropOnClaim = FALSE
   MaxRuns = 3
 INVARIANTS TypeOK NoOverlap NoPanic NameReusable NameSlotUnique SuccessorReachable LockFreeAtEnd
